@@ -467,10 +467,31 @@ def wavelet_cases(rng, tier):
     return [ws, wf]
 
 
+def haar_cases(rng, tier):
+    import odl
+    cs = C.CaseSet('haar', ['C18.ModelH', 'C18.Corr'], 'check_haar', 'case_haar')
+    for n in range(1, 13 if tier == 'quick' else 25):
+        for L in range(0, 4):
+            for name in (['haar'] if tier == 'quick' else ['haar', 'db1']):
+                sp = odl.uniform_discr(0, float(n), n)
+                with warnings.catch_warnings():
+                    warnings.simplefilter('ignore')
+                    W = odl.trafos.WaveletTransform(sp, name, nlevels=L, pad_mode='pywt_periodic')
+                    x = _rand_arr(rng, [n], False)
+                    c = _rand_arr(rng, [W.range.size], False)
+                    fwd = np.asarray(W(x))
+                    inv = np.asarray(W.inverse(c))
+                cs.add('{| h_L := %s%%nat; h_x := %s; h_fwd := %s; h_c := %s; h_inv := %s |}'
+                       % (C.nat(L), C.qs(x.tolist()), C.qs(fwd.tolist()), C.qs(c.tolist()), C.qs(inv.tolist())),
+                       {'n': n, 'nlevels': L, 'wavelet': name, 'x': x.tolist(), 'c': c.tolist()},
+                       (n, L, name, str(x.tolist()), str(c.tolist())))
+    return cs
+
+
 def correspondence(rng, tier):
     C.setup_impl_path()
     return [rg_cases(rng, tier), fac_cases(rng, tier), cis_cases(rng, tier), dft_cases(rng, tier), ft_cases(rng, tier)] \
-        + wavelet_cases(rng, tier)
+        + wavelet_cases(rng, tier) + [haar_cases(rng, tier)]
 
 
 LEVEL_TEXT = ('Partial proof. Proved in Coq for ALL sizes/shapes/axes lists/shift patterns/signs: reciprocal_grid has '
